@@ -296,7 +296,8 @@ _ALSO = {
             "error codes (recursion limit, end of input after a quote shorthand, closing delimiter; 8 cases); "
             "the dotted-tail handling of the list twins maps each tail token to the same outcome; after a `.` both list "
             "parsers classify the following byte identically (dotted tail vs symbol starting with a dot) for all 256 byte "
-            "values and end of input.", None),
+            "values and end of input; the hand-written, iterative clone of the span information rebuilds the chain it is given "
+            "cell for cell, terminator kind for terminator kind and span for span (10 structural chains).", None),
     "C11": ("for a quote shorthand the end position handed to Datum::quotation is read before the quoted datum is parsed; "
             "reader fields are identified by type and accessors by signature; the stream's line/column counter and the "
             "slice's recount special-case exactly the same byte values (only LF) and advance for each of the others (256 "
@@ -312,7 +313,9 @@ _ALSO = {
             "key texts (entries that are not pairs, duplicate keys, the same text under each name kind, a dotted tail, "
             "a non-list): the answer is the cdr of the first entry whose key matches - any name kind with that text "
             "for lookup by name, the same kind and text for lookup by value - and None otherwise (24 cases); "
-            "the tail handling of the list traversals maps each cdr shape to the documented outcome.", None),
+            "the tail handling of the list traversals maps each cdr shape to the documented outcome; the hand-written, "
+            "iterative Cons::clone (which the cloning conversions go through) gives back the cells, elements and tail of "
+            "1..3-element chains with six kinds of tail and nested chains (20 cases).", None),
 }
 for _k, (_t, _tech) in _ALSO.items():
     CLAIMS[_k]["text"] = CLAIMS[_k]["text"] + " Also claimed: " + _t
